@@ -45,10 +45,29 @@ class Ctx:
         self.rules_text: Dict[str, str] = {}
         self.counters: Dict[str, int] = {}
         self.t0 = time.time()
+        self._relabel: Dict[str, str] = {}
+
+    # ---- a rule of one property run as part of another (the same necessary condition serves both): ids are re-labelled
+    def borrowed(self, mapping: Dict[str, str]):
+        ctx = self
+
+        class _B:
+            def __enter__(self_b):
+                self_b.saved = dict(ctx._relabel)
+                ctx._relabel.update(mapping)
+
+            def __exit__(self_b, *a):
+                ctx._relabel = self_b.saved
+                return False
+
+        return _B()
+
+    def _rid(self, rid: str) -> str:
+        return self._relabel.get(rid, rid)
 
     # ---- recording
     def rule(self, rid: str, text: str) -> None:
-        self.rules_text[rid] = text
+        self.rules_text[self._rid(rid)] = text + (f" [rule {rid} of another property, applied here]" if rid in self._relabel else "")
 
     def key(self, fn: Optional[FuncInfo], pattern: str) -> str:
         if fn is None:
@@ -56,10 +75,10 @@ class Ctx:
         return f"{fn.path}::{fn.short}::{pattern}"
 
     def ok(self, rule: str, key: str, where: str, detail: str, trivial: bool = False) -> None:
-        self.instances.append(Instance(rule, key, where, True, detail, None, trivial))
+        self.instances.append(Instance(self._rid(rule), key, where, True, detail, None, trivial))
 
     def fail(self, rule: str, key: str, where: str, detail: str, witness: Optional[List[str]] = None) -> None:
-        self.instances.append(Instance(rule, key, where, False, detail, witness))
+        self.instances.append(Instance(self._rid(rule), key, where, False, detail, witness))
 
     def record(self, rule: str, key: str, where: str, ok: bool, detail: str, witness=None) -> None:
         if ok:
@@ -75,6 +94,7 @@ class Ctx:
 
     def floor(self, rule: str, what: str, n: int, minimum: int) -> None:
         """Fail closed (exit 2) if a rule matched fewer sites than were confirmed by hand."""
+        rule = self._rid(rule)
         self.counters[f"{rule}:{what}"] = n
         if n < minimum:
             raise AnalysisError(
